@@ -1850,9 +1850,11 @@ class CParser:
             typ, mark, lparen_tok = result
             if self._peek_type() == "LBRACE":
                 # (type){...} is a compound literal, not a cast. Examples:
-                #   (int){1}      -> compound literal, handled in postfix
+                #   (int){1}      -> compound literal (a postfix expression)
                 #   (int) x       -> cast, handled below
-                self._reset(mark)
+                # The type name is already parsed; don't back up and parse it
+                # again, which would double the work per nesting level.
+                return self._parse_compound_literal(typ, lparen_tok)
             else:
                 expr = self._parse_cast_expression()
                 return c_ast.Cast(typ, expr, self._tok_coord(lparen_tok))
@@ -1881,12 +1883,13 @@ class CParser:
             tok = self._advance()
             result = self._try_parse_paren_type_name()
             if result is not None:
-                typ, mark, _ = result
+                typ, _, lparen_tok = result
                 if self._peek_type() != "LBRACE":
                     return c_ast.UnaryOp(tok.value, typ, self._tok_coord(tok))
                 # sizeof (type){...}: the operand is a compound literal, not
                 # a parenthesized type name.
-                self._reset(mark)
+                expr = self._parse_compound_literal(typ, lparen_tok)
+                return c_ast.UnaryOp(tok.value, expr, self._tok_coord(tok))
             expr = self._parse_unary_expression()
             return c_ast.UnaryOp(tok.value, expr, self._tok_coord(tok))
 
@@ -1902,25 +1905,36 @@ class CParser:
     # BNF: postfix_expression   : primary_expression postfix_suffix*
     #                           | '(' type_name ')' '{' initializer_list ','? '}'
     def _parse_postfix_expression(self) -> c_ast.Node:
-        expr = None
         result = self._try_parse_paren_type_name()
         if result is not None:
             typ, mark, lparen_tok = result
             # Disambiguate between casts and compound literals:
             #   (int) x   -> cast
             #   (int) {1} -> compound literal
-            if self._accept("LBRACE"):
-                init = self._parse_initializer_list()
-                self._accept("COMMA")
-                self._expect("RBRACE")
-                # A compound literal is a postfix expression like any other:
-                # it can be subscripted, have members selected, etc.
-                expr = c_ast.CompoundLiteral(typ, init, self._tok_coord(lparen_tok))
-            else:
-                self._reset(mark)
+            if self._peek_type() == "LBRACE":
+                return self._parse_compound_literal(typ, lparen_tok)
+            self._reset(mark)
 
-        if expr is None:
-            expr = self._parse_primary_expression()
+        return self._parse_postfix_suffixes(self._parse_primary_expression())
+
+    def _parse_compound_literal(
+        self, typ: c_ast.Typename, lparen_tok: Token
+    ) -> c_ast.Node:
+        """Parse the braces of a compound literal whose '(' type_name ')' part
+        was already consumed, and the postfix operators following it.
+        """
+        self._expect("LBRACE")
+        init = self._parse_initializer_list()
+        self._accept("COMMA")
+        self._expect("RBRACE")
+        # A compound literal is a postfix expression like any other: it can
+        # be subscripted, have members selected, etc.
+        expr = c_ast.CompoundLiteral(typ, init, self._tok_coord(lparen_tok))
+        return self._parse_postfix_suffixes(expr)
+
+    # BNF: postfix_suffix : '[' expression ']' | '(' argument_expression_list? ')'
+    #                     | ('.' | '->') identifier_or_typeid | '++' | '--'
+    def _parse_postfix_suffixes(self, expr: c_ast.Node) -> c_ast.Node:
         while True:
             if self._accept("LBRACKET"):
                 sub = self._parse_expression()
